@@ -259,7 +259,7 @@ const LEN_BOUND: usize = 24;
 pub fn run(tier: Tier) -> i32 {
     let ctx = Ctx::new("C12", tier);
     let ops = alphabet();
-    let depth = tier.pick(5usize, 7);
+    let depth = match std::env::var("C12_DEPTH").ok().and_then(|s| s.parse().ok()) { Some(d) => d, None => tier.pick(6usize, 7) };
     let mut seen: HashMap<Fp, Vec<u8>> = HashMap::new();
     let init: Fp = (vec![], 0, false);
     seen.insert(init.clone(), vec![]);
